@@ -209,4 +209,69 @@ theorem scanSeen_nodup {α} [DecidableEq α] (rej : Bool → Bool) (hr : ∀ b, 
 theorem not_gt_eq_le (n l : Nat) : (!decide (n > l)) = decide (n ≤ l) := by
   by_cases h : n ≤ l <;> simp [h] <;> omega
 
+
+/-! ### validation loops whose body is a regenerated decision tree -/
+
+/-- run a validation loop: `body x seen` is the exit the loop body takes for element `x` when its key has (not) been seen
+before; exit 0 = end of the body (the key is recorded, next iteration), any other exit = an error `return` -/
+def runLoop {α κ} [DecidableEq κ] (key : α → κ) (body : α → Bool → Nat) : List κ → List α → Bool
+  | _, [] => true
+  | seen, x :: xs => if body x (seen.contains (key x)) = 0 then runLoop key body (key x :: seen) xs else false
+
+theorem runLoop_iff {α κ} [DecidableEq κ] (key : α → κ) (body : α → Bool → Nat) (ok : α → Bool)
+    (hb : ∀ x s, body x s = 0 ↔ (ok x = true ∧ s = false)) :
+    ∀ (l : List α) (seen : List κ),
+      runLoop key body seen l = true ↔
+        ((∀ x ∈ l, ok x = true) ∧ (l.map key).Nodup ∧ ∀ x ∈ l, key x ∉ seen)
+  | [], seen => by simp [runLoop]
+  | x :: xs, seen => by
+    have ih := runLoop_iff key body ok hb xs (key x :: seen)
+    unfold runLoop
+    by_cases h0 : body x (seen.contains (key x)) = 0
+    · obtain ⟨hok, hs⟩ := (hb _ _).mp h0
+      have hx : key x ∉ seen := by
+        intro hm
+        rw [List.contains_iff_mem.mpr hm] at hs; cases hs
+      rw [if_pos h0, ih]
+      constructor
+      · rintro ⟨ha, hn, hall⟩
+        refine ⟨?_, ?_, ?_⟩
+        · intro y hy
+          rcases List.mem_cons.mp hy with rfl | hy
+          · exact hok
+          · exact ha y hy
+        · rw [List.map_cons, List.nodup_cons]
+          refine ⟨?_, hn⟩
+          intro hm
+          obtain ⟨y, hy, e⟩ := List.mem_map.mp hm
+          exact hall y hy (by rw [e]; exact List.mem_cons_self)
+        · intro y hy
+          rcases List.mem_cons.mp hy with rfl | hy
+          · exact hx
+          · exact fun hm => hall y hy (List.mem_cons_of_mem _ hm)
+      · rintro ⟨ha, hn, hall⟩
+        rw [List.map_cons, List.nodup_cons] at hn
+        refine ⟨fun y hy => ha y (List.mem_cons_of_mem _ hy), hn.2, ?_⟩
+        intro y hy hm
+        rcases List.mem_cons.mp hm with e | hm
+        · exact hn.1 (List.mem_map.mpr ⟨y, hy, e⟩)
+        · exact hall y (List.mem_cons_of_mem _ hy) hm
+    · rw [if_neg h0]
+      constructor
+      · intro h; cases h
+      · rintro ⟨ha, _, hall⟩
+        have hok := ha x List.mem_cons_self
+        have hx := hall x List.mem_cons_self
+        have hs : seen.contains (key x) = false := by
+          cases h : seen.contains (key x)
+          · rfl
+          · exact absurd (List.contains_iff_mem.mp h) hx
+        exact absurd ((hb _ _).mpr ⟨hok, hs⟩) h0
+
+theorem runLoop_all_nodup {α κ} [DecidableEq κ] (key : α → κ) (body : α → Bool → Nat) (ok : α → Bool)
+    (hb : ∀ x s, body x s = 0 ↔ (ok x = true ∧ s = false)) (l : List α) :
+    runLoop key body [] l = (l.all ok && decide ((l.map key).Nodup)) := by
+  rw [Bool.eq_iff_iff, runLoop_iff key body ok hb]
+  simp
+
 end AutoVerif.C03
